@@ -491,7 +491,7 @@ func main() {
 	if thorough {
 		worldsPerShard = 50
 	}
-	nWorlds := f.Count(40, 800)
+	nWorlds := f.Count(40, 300)
 	perWorld := 14
 	if thorough {
 		perWorld = 30
